@@ -32,6 +32,8 @@ type Shape struct {
 	Want    []Msg  // fetch: the records encoded in Set
 	Got     []Msg  // fetch: records delivered by the batch
 	Deliver string // fetch: "-" | "prefix" | "notprefix"
+	Via     string // fetch: "" = ReadBatchWith + Batch.ReadMessage; "ReadMessage" = Conn.ReadMessage; "Read" = Conn.Read (one record each)
+	ReadN   int    // fetch: 0 = read the batch to its end; n > 0 = read at most n records, then Close; -1 = Close at once
 }
 
 type Msg struct {
@@ -58,7 +60,7 @@ func optStr(w *W, r *rand.Rand, max int) {
 
 func int32s(w *W, r *rand.Rand, max int) {
 	n := r.Intn(max + 1)
-	w.I32(int32(n))
+	w.Cnt(int32(n))
 	for i := 0; i < n; i++ {
 		w.I32(int32(r.Intn(5)))
 	}
@@ -66,7 +68,7 @@ func int32s(w *W, r *rand.Rand, max int) {
 
 func brokers(w *W, r *rand.Rand) {
 	n := r.Intn(4)
-	w.I32(int32(n))
+	w.Cnt(int32(n))
 	for i := 0; i < n; i++ {
 		w.I32(int32(i + 1))
 		w.Str("h" + str(r, 6))
@@ -78,7 +80,7 @@ func brokers(w *W, r *rand.Rand) {
 func metaTopics(v int16, w *W, r *rand.Rand, sh *Shape) {
 	n := 1 + r.Intn(3)
 	own := r.Intn(n)
-	w.I32(int32(n))
+	w.Cnt(int32(n))
 	for i := 0; i < n; i++ {
 		w.Err()
 		if i == own {
@@ -88,7 +90,7 @@ func metaTopics(v int16, w *W, r *rand.Rand, sh *Shape) {
 		}
 		w.I8(int8(r.Intn(2)))
 		np := r.Intn(3)
-		w.I32(int32(np))
+		w.Cnt(int32(np))
 		for p := 0; p < np; p++ {
 			w.Err()
 			w.I32(int32(p))
@@ -104,7 +106,7 @@ func metaTopics(v int16, w *W, r *rand.Rand, sh *Shape) {
 
 func topicPartArr(w *W, r *rand.Rand, sh *Shape, part func()) {
 	nt := 1 + r.Intn(2)
-	w.I32(int32(nt))
+	w.Cnt(int32(nt))
 	for t := 0; t < nt; t++ {
 		if t == 0 {
 			w.Str(sh.Topic)
@@ -112,7 +114,7 @@ func topicPartArr(w *W, r *rand.Rand, sh *Shape, part func()) {
 			w.Str("o" + str(r, 4))
 		}
 		np := 1 + r.Intn(2)
-		w.I32(int32(np))
+		w.Cnt(int32(np))
 		for p := 0; p < np; p++ {
 			part()
 		}
@@ -127,7 +129,7 @@ var Ops = []*Op{
 		Build: func(v int16, w *W, r *rand.Rand, sh *Shape) {
 			w.Err()
 			n := r.Intn(5)
-			w.I32(int32(n))
+			w.Cnt(int32(n))
 			for i := 0; i < n; i++ {
 				w.I16(int16(i))
 				w.I16(0)
@@ -137,9 +139,9 @@ var Ops = []*Op{
 		Call: func(c *kafka.Conn, sh *Shape) (string, error) { _, err := c.ApiVersions(); return "", err }},
 	{Name: "listOffsets", Key: 2, Versions: []int16{1},
 		Build: func(v int16, w *W, r *rand.Rand, sh *Shape) {
-			w.I32(1)
+			w.Cnt(1)
 			w.Str(sh.Topic)
-			w.I32(1)
+			w.Cnt(1)
 			w.I32(0)
 			w.Err()
 			w.I64(r.Int63n(1 << 40))
@@ -178,9 +180,9 @@ var Ops = []*Op{
 		Call: func(c *kafka.Conn, sh *Shape) (string, error) { _, err := c.Controller(); return "", err }},
 	{Name: "produce", Key: 0, Versions: []int16{2, 3, 7},
 		Build: func(v int16, w *W, r *rand.Rand, sh *Shape) {
-			w.I32(1)
+			w.Cnt(1)
 			w.Str(sh.Topic)
-			w.I32(1)
+			w.Cnt(1)
 			w.I32(0)
 			w.Err()
 			w.I64(r.Int63n(1 << 40))
@@ -201,9 +203,9 @@ var Ops = []*Op{
 				w.Err()
 				w.I32(int32(r.Intn(100))) // session id
 			}
-			w.I32(1)
+			w.Cnt(1)
 			w.Str(sh.Topic)
-			w.I32(1)
+			w.Cnt(1)
 			w.I32(0)
 			w.Err()
 			w.I64(sh.HWM)
@@ -231,9 +233,37 @@ var Ops = []*Op{
 			if _, err := c.Seek(sh.Offset, kafka.SeekAbsolute|kafka.SeekDontCheck); err != nil {
 				return "", err
 			}
+			if sh.Via != "" {
+				// the single-record convenience calls of Conn: ReadBatch(1, max) + one record + Batch.Close
+				var m kafka.Message
+				var err error
+				if sh.Via == "Read" {
+					buf := make([]byte, 1<<16)
+					var n int
+					n, err = c.Read(buf)
+					if err == nil && len(sh.Want) > 0 {
+						m = kafka.Message{Offset: sh.Want[0].Offset, Key: []byte(sh.Want[0].Key), Value: buf[:n]}
+					}
+				} else {
+					m, err = c.ReadMessage(1 << 20)
+				}
+				sh.Deliver = "prefix"
+				if err == nil {
+					sh.Got = append(sh.Got, Msg{m.Offset, string(m.Key), string(m.Value)})
+					if len(sh.Want) == 0 || sh.Got[0] != sh.Want[0] {
+						sh.Deliver = "notprefix"
+					}
+				}
+				return "", err
+			}
 			b := c.ReadBatchWith(kafka.ReadBatchConfig{MinBytes: 1, MaxBytes: 1 << 20})
 			var rerr error
+			early := false
 			for {
+				if sh.ReadN < 0 || (sh.ReadN > 0 && len(sh.Got) >= sh.ReadN) {
+					early = true // the caller stops here (Conn.ReadMessage / Conn.Read do exactly this after one record)
+					break
+				}
 				m, err := b.ReadMessage()
 				if err != nil {
 					rerr = err
@@ -256,6 +286,9 @@ var Ops = []*Op{
 					}
 				}
 			}
+			if early {
+				return "", cerr
+			}
 			if errors.Is(rerr, io.EOF) && cerr == nil {
 				if len(sh.Got) != len(sh.Want) {
 					sh.Deliver = "incomplete-as-complete"
@@ -273,7 +306,7 @@ var Ops = []*Op{
 				w.I32(int32(r.Intn(100)))
 			}
 			n := 1 + r.Intn(3)
-			w.I32(int32(n))
+			w.Cnt(int32(n))
 			for i := 0; i < n; i++ {
 				w.Str("t" + str(r, 4))
 				w.Err()
@@ -291,7 +324,7 @@ var Ops = []*Op{
 				w.I32(int32(r.Intn(100)))
 			}
 			n := 1 + r.Intn(3)
-			w.I32(int32(n))
+			w.Cnt(int32(n))
 			for i := 0; i < n; i++ {
 				w.Str("t" + str(r, 4))
 				w.Err()
@@ -316,7 +349,7 @@ var Ops = []*Op{
 			w.Str("m" + str(r, 4))
 			w.Str("m" + str(r, 4))
 			n := r.Intn(3)
-			w.I32(int32(n))
+			w.Cnt(int32(n))
 			for i := 0; i < n; i++ {
 				w.Str("m" + str(r, 4))
 				w.Bytes([]byte(str(r, 6)))
@@ -338,7 +371,7 @@ var Ops = []*Op{
 			w.I32(int32(r.Intn(100)))
 			w.Err()
 			n := r.Intn(3)
-			w.I32(int32(n))
+			w.Cnt(int32(n))
 			for i := 0; i < n; i++ {
 				w.Str("g" + str(r, 4))
 				w.Str("consumer")
@@ -356,7 +389,7 @@ var Ops = []*Op{
 		Build: func(v int16, w *W, r *rand.Rand, sh *Shape) {
 			w.Err()
 			n := r.Intn(3)
-			w.I32(int32(n))
+			w.Cnt(int32(n))
 			for i := 0; i < n; i++ {
 				w.Str("M" + str(r, 5))
 			}
@@ -421,6 +454,11 @@ func Outcome(err error) string {
 // records of a set from 0; for format 2 the base offset of each batch (outside the CRC) is patched so that the set
 // starts at `base`; a format 1 set is a single batch starting at 0.  The base actually used is returned.
 func RecordSet(r *rand.Rand, magic int8, base int64, n int, batches int, attrs protocol.Attributes) ([]byte, []Msg, int64, error) {
+	return RecordSetSized(r, magic, base, n, batches, attrs, 0)
+}
+
+// RecordSetSized is RecordSet with values of valLen random (incompressible) bytes when valLen > 0.
+func RecordSetSized(r *rand.Rand, magic int8, base int64, n int, batches int, attrs protocol.Attributes, valLen int) ([]byte, []Msg, int64, error) {
 	var out bytes.Buffer
 	var msgs []Msg
 	if batches < 1 || magic < 2 {
@@ -442,6 +480,11 @@ func RecordSet(r *rand.Rand, magic int8, base int64, n int, batches int, attrs p
 		recs := make([]protocol.Record, k)
 		for i := range recs {
 			key, val := str(r, 3), "v"+str(r, 8)
+			if valLen > 0 {
+				bv := make([]byte, valLen)
+				r.Read(bv)
+				val = string(bv)
+			}
 			recs[i] = protocol.Record{Offset: off, Time: ts(1000 + off), Key: protocol.NewBytes([]byte(key)), Value: protocol.NewBytes([]byte(val))}
 			if key == "" {
 				recs[i].Key = nil
